@@ -660,7 +660,13 @@ TASK_KEY(func, call);
 static int cmp_task_tid(struct uftrace_data *handle, struct uftrace_report_node *a,
 			struct uftrace_report_node *b)
 {
-	return strcmp(b->name, a->name);
+	/* the names are decimal numbers: strcmp() would put 100 before 99 */
+	long tid_a = strtol(a->name, NULL, 10);
+	long tid_b = strtol(b->name, NULL, 10);
+
+	if (tid_a == tid_b)
+		return 0;
+	return tid_a < tid_b ? 1 : -1;
 }
 
 static struct sort_task_key task_tid = {
